@@ -412,7 +412,23 @@ func (e *Engine) runHarness(fn *ssa.Function, timeout time.Duration) *RunResult 
 			}
 		}(i)
 	}
+	stopProg := make(chan struct{})
+	go func() {
+		tk := time.NewTicker(15 * time.Second)
+		defer tk.Stop()
+		for {
+			select {
+			case <-stopProg:
+				return
+			case <-tk.C:
+				e.mu.Lock()
+				fmt.Fprintf(os.Stderr, "  [%s] paths=%d pending=%d outcomes=%v queries=%d\n", fn.Name(), res.Paths, len(e.stack), res.Outcomes, atomic.LoadInt64(&gstats.queries))
+				e.mu.Unlock()
+			}
+		}
+	}()
 	wg.Wait()
+	close(stopProg)
 	if atomic.LoadInt32(&e.stopped) != 0 {
 		res.Inconcl = append(res.Inconcl, "time budget exhausted before all paths were explored")
 	}
